@@ -118,6 +118,22 @@ theorem retry_unavailable_over_budget (m : Nat) (rest : List Attempt) :
   have := retry_over_budget m rest 0 (Nat.zero_le _)
   simpa using this
 
+/-- any configured budget, negative ones included (`MaxRetries` is an `int`): at most `max(budget, 0)` retries … -/
+theorem retry_at_most_int (m : Int) (outs : List Attempt) : ((retryInt m outs).1 : Int) ≤ max m 0 + 1 := by
+  have := retry_at_most m.toNat outs
+  unfold retryInt
+  omega
+
+/-- … and a budget of zero or less means exactly one attempt, whatever it answers -/
+theorem retry_nonpositive_budget (m : Int) (hm : m ≤ 0) (a : Attempt) (rest : List Attempt) :
+    retryInt m (a :: rest) = (1, some a) := by
+  have h0 : m.toNat = 0 := by omega
+  unfold retryInt
+  rw [h0]
+  simp [retry]
+
+example : retryInt (-1) [.unavailable, .unavailable, .ok] = (1, some .unavailable) := by decide
+
 section conc
 open Ldlm.ClientConc
 
